@@ -150,10 +150,14 @@ pub struct Failure {
     pub detail: String,
 }
 
-/// Per-signature bookkeeping: count, and the shortest few inputs
+/// Bookkeeping of failing cases. Every pushed case is matched against the known findings of the
+/// property *at push time* (so that nothing hides behind the example cap): excused cases are
+/// only counted per finding, unexplained ones are kept per signature (count + shortest examples).
 #[derive(Debug, Default, Clone)]
 pub struct Failures {
     pub by_sig: BTreeMap<String, SigFailures>,
+    /// finding slug -> (count, shortest example)
+    pub excused: BTreeMap<String, (u64, Option<Failure>)>,
 }
 
 #[derive(Debug, Default, Clone)]
@@ -162,22 +166,42 @@ pub struct SigFailures {
     pub examples: Vec<Failure>,
 }
 
-const MAX_EXAMPLES: usize = 400;
+const MAX_EXAMPLES: usize = 200;
+
+static KNOWN: std::sync::OnceLock<Vec<KnownFinding>> = std::sync::OnceLock::new();
+static EMIT_KNOWN: std::sync::OnceLock<bool> = std::sync::OnceLock::new();
+
+pub fn known() -> &'static [KnownFinding] {
+    KNOWN.get().map(|v| v.as_slice()).unwrap_or(&[])
+}
+
+fn keep_shortest(examples: &mut Vec<Failure>, f: Failure) {
+    if examples.len() < MAX_EXAMPLES || EMIT_KNOWN.get().copied().unwrap_or(false) {
+        examples.push(f);
+    } else if let Some(longest) = examples
+        .iter_mut()
+        .max_by_key(|x| x.input.len())
+        .filter(|x| x.input.len() > f.input.len())
+    {
+        *longest = f;
+    }
+}
 
 impl Failures {
     pub fn push(&mut self, f: Failure) {
+        if !EMIT_KNOWN.get().copied().unwrap_or(false) {
+            if let Some(k) = known().iter().find(|k| k.matches(&f)) {
+                let e = self.excused.entry(k.slug.clone()).or_insert((0, None));
+                e.0 += 1;
+                if e.1.as_ref().is_none_or(|old| old.input.len() > f.input.len()) {
+                    e.1 = Some(f);
+                }
+                return;
+            }
+        }
         let e = self.by_sig.entry(f.signature.clone()).or_default();
         e.count += 1;
-        if e.examples.len() < MAX_EXAMPLES {
-            e.examples.push(f);
-        } else if let Some(longest) = e
-            .examples
-            .iter_mut()
-            .max_by_key(|x| x.input.len())
-            .filter(|x| x.input.len() > f.input.len())
-        {
-            *longest = f;
-        }
+        keep_shortest(&mut e.examples, f);
     }
 
     pub fn merge(&mut self, other: Failures) {
@@ -185,22 +209,27 @@ impl Failures {
             let e = self.by_sig.entry(sig).or_default();
             e.count += sf.count;
             for f in sf.examples {
-                if e.examples.len() < MAX_EXAMPLES {
-                    e.examples.push(f);
-                } else if let Some(longest) = e
-                    .examples
-                    .iter_mut()
-                    .max_by_key(|x| x.input.len())
-                    .filter(|x| x.input.len() > f.input.len())
-                {
-                    *longest = f;
+                keep_shortest(&mut e.examples, f);
+            }
+        }
+        for (slug, (n, ex)) in other.excused {
+            let e = self.excused.entry(slug).or_insert((0, None));
+            e.0 += n;
+            if let Some(ex) = ex {
+                if e.1.as_ref().is_none_or(|old| old.input.len() > ex.input.len()) {
+                    e.1 = Some(ex);
                 }
             }
         }
     }
 
+    /// unexplained failing cases
     pub fn total(&self) -> u64 {
         self.by_sig.values().map(|s| s.count).sum()
+    }
+
+    pub fn excused_total(&self) -> u64 {
+        self.excused.values().map(|s| s.0).sum()
     }
 
     pub fn all(&self) -> impl Iterator<Item = &Failure> {
@@ -223,7 +252,16 @@ pub struct KnownFinding {
     pub api: String,
     pub signature: String,
     pub input_re: regex::Regex,
+    /// engines with defect models (C27): the name of the model
+    pub model: Option<String>,
+    /// a committed file with one hash per excused input (see `case_hash`)
+    pub cases: Option<std::collections::BTreeSet<u64>>,
     pub text: String,
+}
+
+/// the identity of a failing case in a `cases=` file
+pub fn case_hash(api: &str, input: &str) -> u64 {
+    fxhash(&format!("{api}\u{0}{input}"))
 }
 
 pub fn load_known(property: &str) -> Vec<KnownFinding> {
@@ -241,10 +279,21 @@ pub fn load_known(property: &str) -> Vec<KnownFinding> {
         let fields = fields.trim();
         let get = |key: &str| -> Option<String> {
             let pat = format!("{key}=");
-            let start = fields.find(&pat)? + pat.len();
+            let start = if fields.starts_with(&pat) {
+                pat.len()
+            } else {
+                fields.find(&format!(" {pat}"))? + pat.len() + 1
+            };
             let tail = &fields[start..];
-            if key == "input_re" {
-                Some(tail.to_string())
+            if key == "input_re" || key == "signature" {
+                // these may contain spaces: they run until the next ` key=` of a known key or the end
+                let mut end = tail.len();
+                for k in [" input_re=", " cases=", " model=", " api=", " signature=", " finding="] {
+                    if let Some(i) = tail.find(k) {
+                        end = end.min(i);
+                    }
+                }
+                Some(tail[..end].to_string())
             } else {
                 Some(tail.split(' ').next().unwrap_or("").to_string())
             }
@@ -252,10 +301,10 @@ pub fn load_known(property: &str) -> Vec<KnownFinding> {
         if get("property").as_deref() != Some(property) {
             continue;
         }
-        let Some(input_re) = get("input_re") else {
-            // not an entry for the in-process engines
+        if get("engine").as_deref() == Some("progmc") {
             continue;
-        };
+        }
+        let input_re = get("input_re").unwrap_or_else(|| ".*".to_string());
         let input_re = regex::RegexBuilder::new(&format!("^(?s:{})$", input_re))
             .size_limit(50_000_000)
             .build()
@@ -263,12 +312,24 @@ pub fn load_known(property: &str) -> Vec<KnownFinding> {
                 eprintln!("known_findings.txt: bad regex in line `{line}`: {e}");
                 std::process::exit(2)
             });
+        let cases = get("cases").map(|file| {
+            let p = format!("{VERIF_DIR}/{file}");
+            let t = std::fs::read_to_string(&p).unwrap_or_else(|e| {
+                eprintln!("known_findings.txt: cannot read cases file {p}: {e}");
+                std::process::exit(2)
+            });
+            t.lines()
+                .filter_map(|l| u64::from_str_radix(l.split_whitespace().next()?, 16).ok())
+                .collect()
+        });
         res.push(KnownFinding {
             property: property.to_string(),
             slug: get("finding").unwrap_or_default(),
             api: get("api").unwrap_or_else(|| "*".into()),
             signature: get("signature").unwrap_or_default(),
             input_re,
+            model: get("model"),
+            cases,
             text: text.to_string(),
         });
     }
@@ -280,6 +341,10 @@ impl KnownFinding {
         (self.api == "*" || self.api == f.api)
             && f.signature.contains(&self.signature)
             && self.input_re.is_match(&f.input)
+            && self
+                .cases
+                .as_ref()
+                .is_none_or(|c| c.contains(&case_hash(&f.api, &f.input)))
     }
 }
 
@@ -298,6 +363,8 @@ pub struct Report {
 
 impl Report {
     pub fn new(property: &str, args: &Args) -> Self {
+        let _ = KNOWN.set(load_known(property));
+        let _ = EMIT_KNOWN.set(args.rest.iter().any(|a| a == "--emit-known"));
         Self {
             property: property.to_string(),
             tier: args.tier,
@@ -318,17 +385,39 @@ impl Report {
     /// every failure is matched against known_findings.txt; *every* recorded example of a signature
     /// must be matched by a known finding for the signature to be excused.
     pub fn finish(mut self) -> ! {
-        let known = load_known(&self.property);
-        let mut hits: BTreeMap<String, (u64, String)> = BTreeMap::new();
-        let mut violations: Vec<&Failure> = Vec::new();
-        for f in self.failures.all() {
-            if let Some(k) = known.iter().find(|k| k.matches(f)) {
-                let e = hits.entry(k.slug.clone()).or_insert((0, k.text.clone()));
-                e.0 += 1;
-            } else {
-                violations.push(f);
+        // `--emit-known`: write every unexplained failing case as `<hash> <signature>` lines, for
+        // review and (after confirmation through the real CLI) for a committed cases file
+        if EMIT_KNOWN.get().copied().unwrap_or(false) {
+            let dir = format!("{VERIF_DIR}/work/emit-known");
+            let _ = std::fs::create_dir_all(&dir);
+            let path = format!("{dir}/{}.{}.txt", self.property, self.tier.name());
+            let mut out = String::new();
+            for (sig, sf) in &self.failures.by_sig {
+                out.push_str(&format!("# {} cases; signature {sig}\n", sf.count));
+                if sf.count as usize > sf.examples.len() {
+                    out.push_str("# WARNING: more cases than recorded examples\n");
+                }
+                for f in &sf.examples {
+                    out.push_str(&format!("{:016x} {}\n", case_hash(&f.api, &f.input), sig));
+                }
             }
+            let _ = std::fs::write(&path, out);
+            println!("emitted {} unexplained cases to {path}", self.failures.total());
         }
+        let hits: BTreeMap<String, (u64, String)> = self
+            .failures
+            .excused
+            .iter()
+            .map(|(slug, (n, _))| {
+                let text = known()
+                    .iter()
+                    .find(|k| &k.slug == slug)
+                    .map(|k| k.text.clone())
+                    .unwrap_or_default();
+                (slug.clone(), (*n, text))
+            })
+            .collect();
+        let mut violations: Vec<&Failure> = self.failures.all().collect();
         // shortest first, so the first reported is the easiest to read
         violations.sort_by_key(|f| (f.input.len(), f.input.clone()));
 
@@ -359,7 +448,7 @@ impl Report {
         }
 
         let n_viol_sigs = seen_sigs.len();
-        let violation_count = violations.len();
+        let violation_count = self.failures.total() as usize;
 
         let failure_summary: Vec<Value> = self
             .failures
@@ -376,7 +465,7 @@ impl Report {
             "known_findings_hit".into(),
             Value::Array(
                 hits.iter()
-                    .map(|(slug, (n, _))| json!({"finding": slug, "examples_matched": n}))
+                    .map(|(slug, (n, _))| json!({"finding": slug, "cases_matched": n}))
                     .collect(),
             ),
         );
@@ -416,11 +505,10 @@ impl Report {
             );
         }
         println!(
-            "{} {}: {} failing cases recorded in {} signatures; {} unexplained ({} signatures); evidence {}",
+            "{} {}: {} failing cases excused by known findings; {} unexplained in {} signatures; evidence {}",
             self.property,
             self.tier.name(),
-            self.failures.total(),
-            self.failures.by_sig.len(),
+            self.failures.excused_total(),
             violation_count,
             n_viol_sigs,
             ev_path
